@@ -88,15 +88,20 @@ def build(objspec, raw, state):
     from hexital import Hexital
     k = {"empty": 0, "preloaded": 3, "calculated": 3}[state]
     if objspec[0] == "ind":
-        _, label, tf = objspec
+        label, tf = objspec[1], objspec[2]
         kw = {"timeframe": tf} if tf else {}
+        if len(objspec) > 3 and objspec[3]:
+            kw["candles_lifespan"] = timedelta(seconds=objspec[3])
         o = make(BY_LABEL[label], candles=fresh(raw[:k]), **kw)
         if state == "calculated":
             o.calculate()
         return o, k
     _, members, hkw = objspec
     inds = [make(BY_LABEL[l], **({"timeframe": t} if t else {})) for l, t in members]
-    o = Hexital("h", fresh(raw[:k]), inds, **dict(hkw))
+    hk = dict(hkw)
+    if "candles_lifespan" in hk:
+        hk["candles_lifespan"] = timedelta(seconds=hk["candles_lifespan"])
+    o = Hexital("h", fresh(raw[:k]), inds, **hk)
     if state == "calculated":
         o.calculate()
     return o, k
@@ -110,7 +115,64 @@ OBJECTS = [
     ("hex", (("ST2", "T2"), ("SMA2", None)), (("timeframe_fill", True),)),
     ("hex", (("EMA2", None), ("SMA2", "T2")), (("candlestick_type", "HA"),)),
     ("hex", (("BBANDS2", None),), (("timeframe", "T2"),)),
+    ("ind", "EMA2", None, 180), ("ind", "MACD232", None, 120), ("ind", "SMA2", "T2", 240),
+    ("hex", (("SMA2", None), ("RSI2", None)), (("candles_lifespan", 180),)),
+    ("hex", (("EMA2", None), ("OBV", "T2")), (("candles_lifespan", 240),)),
 ]
+
+
+def candle_view(obj):
+    from ..common import canon_candles
+    if hasattr(obj, "get_candles"):
+        try:
+            return tuple((k, canon_candles(v, with_clean=True)) for k, v in sorted(obj.get_candles().items()))
+        except Exception as e:
+            return ("raised", type(e).__name__)
+    try:
+        return canon_candles(obj.candles, with_clean=True)
+    except Exception as e:
+        return ("raised", type(e).__name__)
+
+
+_ADDR = __import__("re").compile(r"0x[0-9a-fA-F]+")
+
+
+def pub(r):
+    """Public, copy-independent rendering of an accessor's return value (objects of the library are named, not opened)."""
+    from ..common import canon_candle
+    if r is None or isinstance(r, (bool, int, float)):
+        return cnum(r)
+    if isinstance(r, str):
+        return _ADDR.sub("0x", r)
+    if isinstance(r, (datetime, timedelta)):
+        return deep(r)
+    if isinstance(r, dict):
+        return ("d",) + tuple(sorted((str(k), pub(v)) for k, v in r.items()))
+    if isinstance(r, (list, tuple)):
+        return ("l",) + tuple(pub(v) for v in r)
+    if isinstance(r, (set, frozenset)):
+        return ("s",) + tuple(sorted(repr(v) for v in r))
+    if type(r).__name__ == "Candle":
+        return ("candle", canon_candle(r, with_clean=True))
+    if hasattr(r, "__dict__"):
+        return ("obj", type(r).__name__, getattr(r, "name", None) if isinstance(getattr(r, "name", None), str) else None)
+    return ("r", _ADDR.sub("0x", repr(r)))
+
+
+def observe(obj, accs):
+    """Everything a user can see: every candle of every timeframe (values, readings, raw values, tag) and the result of
+    every accessor of the menu (evaluated on a private copy). Hidden state (a cache, a cursor) is deliberately NOT part of
+    it: it matters only through what later calls return, which the continuation check below observes."""
+    w = copy.deepcopy(obj)
+    out = [candle_view(w)]
+    for an, fn in accs:
+        try:
+            r = fn(w)
+            out.append((an, pub(r)))
+        except Exception as e:
+            out.append((an, "raised", type(e).__name__))
+    out.append(candle_view(w))
+    return tuple(out)
 
 
 def explore(item):
@@ -134,7 +196,21 @@ def explore(item):
     label = objspec[1] if objspec[0] == "ind" else "Hexital"
     while frontier:
         o, p, path, d = frontier.popleft()
-        before = deep(o)
+        base_obs = {}
+
+        def cont(x, k):
+            """x after k further one-candle appends (k = 0, 1, 2), observed."""
+            y = copy.deepcopy(x)
+            try:
+                for j in range(k):
+                    y.append(fresh(raw[p + j:p + j + 1]))
+            except Exception as e:
+                return ("append-raised", type(e).__name__)
+            return observe(y, accs)
+
+        ks = [k for k in (0, 1, 2) if p + k <= len(raw)]
+        for k in ks:
+            base_obs[k] = cont(o, k)
         for an, fn in accs:
             w = copy.deepcopy(o)
             raised = None
@@ -146,30 +222,15 @@ def explore(item):
             except Exception as e:
                 raised = type(e).__name__
                 rep.inc("accessor_raised_" + an)
-            rep.inc("executions")
+            rep.inc("executions", 1 + len(ks))
             rep.inc("transitions")
-            after = deep(w)
-            if after != before:
-                rep.violation(f"C19|accessor-changed-state|{objspec[0]}|{an}",
-                              {"obj": objspec, "state": state, "word": word, "path": path + (("acc", an),), "oracle": "accessor", "raised": raised})
-                continue
-            # usable afterwards: an append on the accessed object gives the same state as on the untouched one
-            if p < len(raw):
-                a1, a2 = copy.deepcopy(o), w
-                try:
-                    a1.append(fresh(raw[p:p + 1]))
-                    r1 = deep(a1)
-                except Exception as e:
-                    r1 = ("raised", type(e).__name__)
-                try:
-                    a2.append(fresh(raw[p:p + 1]))
-                    r2 = deep(a2)
-                except Exception as e:
-                    r2 = ("raised", type(e).__name__)
-                rep.inc("executions", 2)
-                if r1 != r2:
-                    rep.violation(f"C19|unusable-after-accessor|{objspec[0]}|{an}",
-                                  {"obj": objspec, "state": state, "word": word, "path": path + (("acc", an), ("append", 1)), "oracle": "usable"})
+            for k in ks:
+                if cont(w, k) != base_obs[k]:
+                    what = "accessor-changed-state" if k == 0 else "unusable-after-accessor"
+                    rep.violation(f"C19|{what}|{objspec[0]}|{an}",
+                                  {"obj": objspec, "state": state, "word": word, "path": path + (("acc", an),) + (("append", 1),) * k,
+                                   "oracle": "accessor" if k == 0 else "usable", "raised": raised, "after_appends": k})
+                    break
         if d >= depth or p >= len(raw):
             continue
         for k in (1, 2):
@@ -255,7 +316,7 @@ def explore_enc(item):
                 base = v  # plan (0,0,0..) = all Candle objects
             if v != base:
                 bad = sorted({encs[j] for j in plan} - {"Candle"})
-                rep.violation(f"C19|encoding-differs|{objspec[0]}|{'+'.join(bad)[:60]}",
+                rep.violation(f"C19|encoding-differs|{objspec[0]}|{bad[0] if len(bad) == 1 else 'mixed'}",
                               {"obj": objspec, "word": word, "plan": [encs[j] for j in plan], "oracle": "encoding"})
             else:
                 rep.add("nontrivial", (oi, tuple(plan)))
@@ -272,39 +333,30 @@ def replay(case):
     raw = raw_stream(case["word"], "+", A.regular_gaps("reg", len(case["word"]), 120), "T2")
     if case["oracle"] in ("accessor", "usable"):
         obj, pos = build(objspec, raw, case["state"])
-        accs = dict(indicator_accessors(obj) if objspec[0] == "ind" else hexital_accessors(obj, list(obj.indicators), [t for _, t in objspec[1] if t]))
-        for step in case["path"]:
-            if step[0] == "append":
-                twin = copy.deepcopy(obj)
-                try:
-                    obj.append(fresh(raw[pos:pos + step[1]]) if step[1] > 1 else fresh(raw[pos:pos + 1])[0])
-                except Exception:
-                    return True
-                if case["oracle"] == "usable" and step is case["path"][-1]:
-                    pass
-                pos += step[1]
-            else:
-                before = deep(obj)
-                ref = copy.deepcopy(obj)
-                try:
-                    accs[step[1]](obj)
-                except Exception:
-                    pass
-                if deep(obj) != before:
-                    return True
-                if case["oracle"] == "usable":
-                    try:
-                        ref.append(fresh(raw[pos:pos + 1]))
-                        r1 = deep(ref)
-                    except Exception as e:
-                        r1 = ("raised", type(e).__name__)
-                    try:
-                        obj.append(fresh(raw[pos:pos + 1]))
-                        r2 = deep(obj)
-                    except Exception as e:
-                        r2 = ("raised", type(e).__name__)
-                    return r1 != r2
-        return False
+        accs = indicator_accessors(obj) if objspec[0] == "ind" else hexital_accessors(obj, list(obj.indicators), [t for _, t in objspec[1] if t])
+        amap = dict(accs)
+        steps = [tuple(x) for x in case["path"]]
+        k = case.get("after_appends", 0)
+        pre = steps[:len(steps) - k - 1]
+        acc = steps[len(steps) - k - 1]
+        try:
+            for st in pre:
+                obj.append(fresh(raw[pos:pos + st[1]]) if st[1] > 1 else fresh(raw[pos:pos + 1])[0])
+                pos += st[1]
+        except Exception:
+            return True
+        ref = copy.deepcopy(obj)
+        try:
+            amap[acc[1]](obj)
+        except Exception:
+            pass
+        for x in (obj, ref):
+            try:
+                for j in range(k):
+                    x.append(fresh(raw[pos + j:pos + j + 1]))
+            except Exception:
+                pass
+        return observe(obj, accs) != observe(ref, accs)
     # encoding cases
     encs = [e[0] for e in encodings(raw[0])]
     plan = [encs.index(p) for p in case["plan"]]
@@ -335,10 +387,11 @@ def main(prop, tier):
     rep = merge_all(reps)
     rule = ("explicit-state search: from 3 initial states of every object of the pool (10 indicators, 6 Hexitals with 1-3 timeframes, fill, HA) "
             "every accessor of the read-only menu is applied in every reachable state (appends of 1|2 candles to the depth bound, states "
-            "deduplicated on a deep snapshot of the whole object graph); snapshot before == after, and an append after the accessor equals the "
-            "append without it; encoding matrix: every pair of encodings for the first two appends x encodings of the rest, all 9 encodings, result "
+            "deduplicated on a deep snapshot of the whole object graph); the object with the accessor applied must be observationally equal "
+            "(all candles of all timeframes + the results of all accessors) to the object without it, immediately and after 1 and 2 further appends; encoding matrix: every pair of encodings for the first two appends x encodings of the rest, all 9 encodings, result "
             "equal to the all-Candle run and caller containers unchanged; non-trivial = distinct reachable deep states + distinct agreeing encoding plans")
     return finish(prop, tier, rep, t0, rule=rule, bounds={"depth": 5 if tier == "quick" else 7, "objects": OBJECTS, "stream": word},
                   replay_confirm=replay,
-                  assumptions=["an accessor that raises is not a violation if the snapshot is unchanged and the object stays usable",
+                  assumptions=["an accessor that raises is not a violation if the observable state is unchanged and the object stays usable",
+                               "hidden state (caches) is not compared directly, only through what later calls return (2-step continuation)",
                                "single list rows with a leading timestamp are rejected by append's dispatcher and are outside the alphabet"])
